@@ -213,6 +213,12 @@ const xselPath = "github.com/ChrisTrenkamp/xsel"
 
 func (v *verifier) sliceOf(e *Sort) *Sort {
 	k := "[]" + e.Name
+	if e.Elem != nil {
+		k += "->" + e.Elem.Name // pointers and slices all share an SMT sort; the cache must not merge different targets
+		if e.Elem.Elem != nil {
+			k += "->" + e.Elem.Elem.Name
+		}
+	}
 	if s, ok := v.sortCache[k]; ok {
 		return s
 	}
@@ -397,6 +403,12 @@ func (v *verifier) structSort(n *types.Named, st *types.Struct, ts string) (*Sor
 	name := "S_anon_" + sanitize(ts)
 	if n != nil {
 		name = "S_" + sanitize(n.Obj().Pkg().Name()+"_"+n.Obj().Name())
+		// a struct of package store is always laid out in that package's view (Cursor = *InMemory)
+		if n.Obj().Pkg().Path() == xselPath+"/store" && v.curPkg != xselPath+"/store" {
+			old := v.curPkg
+			v.curPkg = xselPath + "/store"
+			defer func() { v.curPkg = old }()
+		}
 	}
 	if s, ok := v.structSorts[name]; ok {
 		return s, nil
